@@ -41,6 +41,7 @@ type Func struct {
 	Extern      bool
 	Iface       bool // contract of an interface method: Name is "Iface.Method"
 	Mode        string
+	LenBoundLog2 int // 0: the property-wide bound
 	Requires    []*Clause
 	Ensures     []*Clause
 	Loops       map[int]*LoopSpec
@@ -126,6 +127,7 @@ var keywords = map[string]bool{
 	"trusted": true, "safe": true, "pure": true, "property": true, "mode": true, "noreturn": true, "opaque": true,
 	"forall": true, "assume": true, "let": true, "assert": true, "foreach": true, "results": true,
 	"implements": true, "sets": true, "note": true, "noframe": true, "callback": true, "site": true,
+	"lenbound": true,
 }
 
 type rawLine struct {
@@ -427,6 +429,17 @@ func Parse(path, src string) (*File, error) {
 			case "opaque":
 				curF.Opaque = true
 			}
+		case "lenbound":
+			// lenbound N: in this function every slice and string has at most 2^N elements (a typing assumption
+			// narrower than the property-wide default, reported with the function)
+			if curF == nil {
+				return nil, errf("lenbound outside func")
+			}
+			n, err := strconv.Atoi(strings.TrimSpace(c.rest))
+			if err != nil || n < 1 || n > 61 {
+				return nil, errf("lenbound wants a number of bits between 1 and 61")
+			}
+			curF.LenBoundLog2 = n
 		case "mode":
 			if curF == nil && curL == nil {
 				return nil, errf("mode outside func/lemma")
